@@ -306,6 +306,12 @@ func NewClient(cfg *ClientConfig) (Client, error) {
 			// a custom dialer to establish the tunnel.
 			proxyDialer, err := proxy.FromURL(url, dialer)
 			if err != nil {
+				if !strings.Contains(cfg.Proxy, "://") {
+					// Without an explicit scheme, what was parsed as the
+					// scheme (and is named in err) can be the user name of
+					// a user:password@host setting: do not repeat it.
+					return nil, errors.New("proxy: unable to use the proxy setting: unknown scheme or malformed URL")
+				}
 				return nil, err
 			}
 			transport.Proxy = nil
